@@ -190,11 +190,18 @@ def run_history(r, hist, build, tag, extra_eval=None, env_apply=None, as_numpy=F
             # the live model yet): it must see the new settings exactly as a fresh model does
             try:
                 got_e = evaluate_entry(live, entry, None if win[0] is None else np.array(win[0], dtype=float))
-                fresh_e = build()
+                # the comparison model gets the settings as constructor arguments where possible and is evaluated once
+                # through model() first: nothing about it is "not refreshed yet" (a live model and a fresh one that was
+                # updated the same way would share a stale first evaluation)
+                if build_with is not None:
+                    fresh_e, rest_e = build_with(dict(net))
+                else:
+                    fresh_e, rest_e = build(), net
                 if env[0] is not None:
                     env_apply(env[0])
-                for n_ in sorted(net):
-                    apply_op(fresh_e, [n_, net[n_]])
+                for n_ in sorted(rest_e):
+                    apply_op(fresh_e, [n_, rest_e[n_]])
+                ev(fresh_e)
                 want_e = evaluate_entry(fresh_e, entry, None if win[0] is None else np.array(win[0], dtype=float))
             except Exception:
                 got_e = want_e = None       # an invalid model: judged below through model()
